@@ -143,6 +143,36 @@ class ImportXml:
         return Exp()
 
 
+@kind("import_json")
+class ImportJson:
+    """Loads the repository's own JSON fixture (current codec, 286 nodes with prefixes,
+    namespace maps and qualified attributes).  Its node ids are fixed, so it is loaded at
+    most once per run: a second load while the first is alive would be id reuse."""
+
+    def gen(self, g):
+        if g.w.corpus_json_loaded or len(g.snap.cells) > 400 or not g.cfg.get("json_corpus"):
+            return None
+        g.w.corpus_json_loaded = True
+        return {"k": "import_json", "s": g.sess, "doc": "eml.json"}
+
+    def resolve(self, V, op):
+        s = V.s
+        # replaying a shrunk list must not load it twice either
+        for h in s.alive():
+            if s.cells[h][FI][F_ID] == "eb67136c-bd9a-11ec-b8d5-43d4b4b0ab4d":
+                raise Skip("already loaded")
+        return {}
+
+    def run(self, W, R, op):
+        n = mio.from_json(corpus(op["doc"]))
+        if isinstance(n, Node):
+            W.handle(n, op["s"])
+        return n
+
+    def spec(self, pre, R, op, out):
+        return Exp()
+
+
 @kind("json_twin")
 class JsonTwin:
     """A working copy made the way the README suggests: from_json(to_json(doc)),
